@@ -457,7 +457,8 @@ def run_progs(pid, rep, specs, deadline_s):
     return totals, samples, bounds, extra
 
 PROG_SPECS = {
- 'C19': lambda q: [dict(name='c19', src='c19_helpers.cpp', label='helper functors: all positions x arities 1..9 x value categories', flags=['-O0'])],
+ 'C19': lambda q: [dict(name='c19', src='c19_helpers.cpp', label='helper functors: all positions x arities 1..9 x value categories', flags=['-O0']),
+                   dict(name='c19g', src='c19_grammars.cpp', args=[5 if q else 7], compilers=['g++'] if q else ['g++', 'clang++'], label='the README helper examples as real grammars (val, create, push_back{}, emplace_back{}, emplace_back<1,2> with conversion, construct<list,1> + push_back<1,3> with a typed term, _e2) x inputs<=%d' % (5 if q else 7))],
  'C13': lambda q: [dict(name='c13', src='c13_context.cpp', args=[4 if q else 9], label='16 >=/>>= assignments x 10 call forms (every context_parse/parse overload) x inputs<=%d over {a,b,foreign}; second grammar (arities 0/1/3/5, typed term, error rule) in 10 assignments x 5 call forms incl. verbose x inputs<=%d' % (4 if q else 9, 6 if q else 7), compilers=['g++'] if q else ['g++', 'clang++'])],
  'C14': lambda q: [dict(name='c14', src='c14_values.cpp', args=[4 if q else 8], label='instrumented copyable value type, inputs<=%d over 7 bytes' % (4 if q else 8), compilers=['g++'] if q else ['g++', 'clang++']),
                    dict(name='c14n', src='c14_values.cpp', args=[4 if q else 7], flags=['-DMOVE_NOT_NOEXCEPT'], label='copyable value type whose move constructor is not noexcept, inputs<=%d' % (4 if q else 7), compilers=['g++']),
@@ -466,7 +467,7 @@ PROG_SPECS = {
                    dict(name='c14m', src='c14_values.cpp', args=[3 if q else 7], flags=['-DMOVE_ONLY'], label='move-only value type (compile probe + run), inputs<=%d' % (3 if q else 7), compilers=['g++', 'clang++'])],
 }
 PROG_RULE = {
- 'C19': 'Complete enumeration (the space is finite): _e1.._e9 x arity N..9; construct<T,I> x I<=arity<=9; push_back<C,A> and emplace_back<C,A> x all 72 ordered position pairs x every arity max(C,A)..9; val / create x arity 0..9; value categories lvalue, const lvalue, rvalue, move-only rvalue. construct<T,I> is also checked to list-initialise (T{value}: std::vector<int> from 3 is {3}). Every other argument is a Poison object without copy, move or conversions (any use fails to compile); results are checked by type (static_assert), by address identity and by the unchanged data() pointer of the returned container. Compiled and run with g++ and clang++.',
+ 'C19': 'Complete enumeration (the space is finite): _e1.._e9 x arity N..9; construct<T,I> x I<=arity<=9; push_back<C,A> and emplace_back<C,A> x all 72 ordered position pairs x every arity max(C,A)..9; val / create x arity 0..9; value categories lvalue, const lvalue, rvalue, move-only rvalue. construct<T,I> is also checked to list-initialise (T{value}: std::vector<int> from 3 is {3}). Every other argument is a Poison object without copy, move or conversions (any use fails to compile); results are checked by type (static_assert), by address identity and by the unchanged data() pointer of the returned container. Compiled and run with g++ and clang++. Second program: the README examples of the helpers as real grammars (arguments are term values and nonterminal values handed over by the parser: conversions from term_value<T>, lexeme slices, lists built by push_back / emplace_back / construct) on every input up to the bound against hand-written evaluators.',
  'C13': 'One 4-rule grammar in all 16 assignments of >= / >>= (16 parser instantiations) x call forms covering every overload of context_parse and parse {non-const lvalue, const lvalue, prvalue, moved lvalue of a move-only type; with stream; with options+stream; parse() and parse()+stream} x every input up to the bound over {a, b, foreign byte}. Functors log rule, argument count, address/constness/value category of the context and a generation counter kept in the context; the expected call sequence is the reduction sequence of the documented driver on a reference LR(1) table. A second grammar with rules of 0, 1, 3 and 5 right-side symbols, a typed term (whose functor must never see the context) and an error rule runs in 10 assignments under 5 call forms (including verbose and non-default options), the expected sequence coming from the documented driver with recovery.',
  'C14': 'A grammar with nterm<V>, a typed term producing V, list building, a nullable rule, operator precedence and an error rule; V is instrumented (identity per value, copy/move/destroy counters, live set). Every input up to the bound over the 6 terminals plus a foreign byte is parsed; invariants per execution: no copies, every value destroyed exactly once, each value handed to at most one functor call, no functor sees a moved-from value, nothing alive after the call. A second build with a move-only V (copy constructor deleted) must compile and satisfy the same invariants; a third build uses a copyable V whose move constructor is not noexcept (nothing may fall back to copying); two more builds attach every functor with >>= and parse through context_parse (values must reach contextual functors as movable rvalues too; one functor takes a value parameter by value). Every build also runs a small grammar over trivially destructible handle types (one with counting copy/move constructors, one move-only) through cstring_buffer, i.e. on the fixed-capacity stacks: no copies there either.',
 }
